@@ -446,6 +446,69 @@ func checkC05(w *World, r *Report) {
 		}
 		if np == 0 {
 			r.Bad("C05.pair", construct+": persisted", pos, "ledger change is never persisted in this operation")
+		} else {
+			// ... and always then: once the transfer has been made, no successful return is reached without the persist
+			persistBlocks := map[*ssa.BasicBlock]bool{}
+			for _, s := range cg.Sites[op.fn] {
+				if isPersist(s) {
+					persistBlocks[s.Instr.Block()] = true
+				}
+			}
+			b0 := match.inF.Instr.Block()
+			skipped := ""
+			if !persistBlocks[b0] || !persistAfterInBlock(b0, match.inF.Instr, func(in ssa.Instruction) bool {
+				for _, s := range cg.Sites[op.fn] {
+					if s.Instr == in && isPersist(s) {
+						return true
+					}
+				}
+				return false
+			}) {
+				// the transfer is made only for a positive amount: edges on which the same amount is known not to be
+				// positive cannot be taken afterwards
+				infeasible := map[Edge]bool{}
+				if match.amount != nil {
+					np := nonPositiveEdges(op.fn, match.amount)
+					var pos []Edge
+					for _, e := range np {
+						pos = append(pos, Edge{e.From, 1 - e.Succ})
+					}
+					if len(pos) > 0 && MustPass(op.fn, pos, b0) {
+						for _, e := range np {
+							infeasible[e] = true
+						}
+					}
+				}
+				seen := map[*ssa.BasicBlock]bool{}
+				var stack []*ssa.BasicBlock
+				push := func(b *ssa.BasicBlock) {
+					for i, sc := range b.Succs {
+						if !infeasible[Edge{b, i}] {
+							stack = append(stack, sc)
+						}
+					}
+				}
+				push(b0)
+				for len(stack) > 0 && skipped == "" {
+					b := stack[len(stack)-1]
+					stack = stack[:len(stack)-1]
+					if seen[b] || persistBlocks[b] || b == op.fn.Recover {
+						continue
+					}
+					seen[b] = true
+					if len(b.Instrs) > 0 {
+						if ret, isRet := b.Instrs[len(b.Instrs)-1].(*ssa.Return); isRet {
+							rv := retVals(ret)
+							if len(rv) == 0 || !isErrorType(rv[len(rv)-1].Type()) || isNilConst(rv[len(rv)-1]) {
+								skipped = w.Pos(ret.Pos())
+							}
+							continue
+						}
+					}
+					push(b)
+				}
+			}
+			r.Check(skipped == "", "C05.pair", construct+": persisted whenever the transfer was made", pos, "every path from the transfer to a successful return passes the persist", "after the coins have moved the operation can return successfully (at "+skipped+") without persisting the ledger change: the same coins can be paid again")
 		}
 	}
 	// every transfer out of the module account on message trees is paired
@@ -940,4 +1003,19 @@ func poolKeyRule(w *World, r *Report, rule string) {
 			}
 		}
 	}
+}
+
+// persistAfterInBlock: in block b an instruction satisfying isP follows instruction `after`.
+func persistAfterInBlock(b *ssa.BasicBlock, after ssa.Instruction, isP func(ssa.Instruction) bool) bool {
+	passed := false
+	for _, in := range b.Instrs {
+		if in == after {
+			passed = true
+			continue
+		}
+		if passed && isP(in) {
+			return true
+		}
+	}
+	return false
 }
